@@ -65,6 +65,8 @@ type e2eCfg struct {
 	deadline time.Duration
 	// how long to wait for the client to recognise the trigger (default 10 s)
 	startWait time.Duration
+	// C17: a scripted tunnel connector for the client (overrides the one `tunnel` installs); nil = none
+	connector func(port int) net.Conn
 }
 
 type e2eRun struct {
@@ -308,6 +310,9 @@ func runTransfer(cfg e2eCfg, src []string, dest string) e2eResult {
 		filter.SetTunnelConnector(connector)
 	}
 	r.filter = filter
+	if cfg.connector != nil {
+		filter.SetTunnelConnector(cfg.connector)
+	}
 	var upCh <-chan error
 	if cfg.upload {
 		var err error
